@@ -388,76 +388,187 @@ Section OperatorProofs.
     - right. apply IH. exact H.
   Qed.
 
-  (** Hypotheses of the fixpoint theorem: a store-independent desired state
-      with unique keys, none of them unmanaged; what Deploy writes is collected
-      by the next Deploy; objects already collected at a desired key were written
-      through the same path; inheriting from the read-back of a written object
-      gives that object again. *)
-  Variable d : list (positive * obj).
+  (** Hypotheses of the fixpoint theorem: one deterministic renderer per key
+      (unique keys, none unmanaged) that may read the object stored under its
+      key; what Deploy writes is collected by the next Deploy. *)
+  Variable rs : list (positive * renderer obj).
   Variable s0 : store obj.
-  Hypothesis d_nodup : NoDup (map fst d).
+  Notation desired_of := (desired_of obj).
+  Notation render_at := (render_at obj inherit collected).
+  Notation deploy_rendered := (deploy_rendered obj obj_eqb own norm inherit collected unmanaged).
+  Hypothesis rs_nodup : NoDup (map fst rs).
   Hypothesis s0_nodup : NoDup (map fst s0).
-  Hypothesis d_managed : forall k o, In (k, o) d -> unmanaged k = false.
+  Hypothesis rs_managed : forall k r, In (k, r) rs -> unmanaged k = false.
   Hypothesis written_collected : forall k x, collected k (norm (own x)) = true.
-  Hypothesis store_stable : forall k o c, In (k, o) d -> cur_lookup k s0 = Some c -> norm (own c) = c.
-  Hypothesis inherit_roundtrip : forall c o, inherit (norm (own (inherit c o))) o = inherit c o.
-  Hypothesis inherit_self : forall o, inherit (norm (own o)) o = o.
 
-  Let s1 := snd (deploy_with d s0).
+  Let s1 := snd (deploy_rendered rs s0).
+
+  Lemma desired_keys : forall s, map fst (desired_of rs s) = map fst rs.
+  Proof. intro s. unfold Operator.desired_of. rewrite map_map. reflexivity. Qed.
+
+  Lemma desired_In : forall s k o, In (k, o) (desired_of rs s) <-> exists r, In (k, r) rs /\ o = r (lookup k s).
+  Proof.
+    intros s k o. unfold Operator.desired_of. rewrite in_map_iff. split.
+    - intros ((k', r) & E & Hin). cbn [fst snd] in E. inversion E; subst. exists r. auto.
+    - intros (r & Hin & E). exists (k, r). cbn [fst snd]. subst o. auto.
+  Qed.
+
+  Lemma rendered_render_at : forall s k r,
+    rendered s k (r (lookup k s)) = render_at k r (lookup k s).
+  Proof.
+    intros s k r. unfold Operator.rendered, Operator.render_at, Operator.cur_lookup.
+    destruct (lookup k s) as [c|]; [|reflexivity]. destruct (collected k c); reflexivity.
+  Qed.
+
+  Lemma has_key_desired : forall s s' k, has_key k (desired_of rs s) = has_key k (desired_of rs s').
+  Proof.
+    intros s s' k.
+    destruct (has_key k (desired_of rs s)) eqn:E1; destruct (has_key k (desired_of rs s')) eqn:E2; try reflexivity.
+    - apply has_key_In in E1. rewrite desired_keys in E1. rewrite <- (desired_keys s') in E1.
+      apply has_key_In in E1. congruence.
+    - apply has_key_In in E2. rewrite desired_keys in E2. rewrite <- (desired_keys s) in E2.
+      apply has_key_In in E2. congruence.
+  Qed.
 
   Lemma second_deploy_no_deletes : forall k c, In (k, c) s1 -> collected k c = true ->
-    has_key k d = true \/ unmanaged k = true.
+    has_key k (desired_of rs s1) = true \/ unmanaged k = true.
   Proof.
-    intros k c Hin Hcol.
-    destruct (has_key k d) eqn:Hk; [left; reflexivity|]. right.
-    assert (Hnk : ~ In k (map fst d)) by (apply not_in_keys; exact Hk).
+    intros k c Hin Hcol. rewrite (has_key_desired s1 s0).
+    destruct (has_key k (desired_of rs s0)) eqn:Hk; [left; reflexivity|]. right.
+    assert (Hnk : ~ In k (map fst (desired_of rs s0))) by (apply not_in_keys; exact Hk).
     assert (Hl : lookup k s1 = Some c).
     { apply lookup_first; [apply deploy_keys_nodup; exact s0_nodup|exact Hin]. }
-    unfold s1 in Hl. rewrite (lookup_after_deploy_other d s0 k Hnk) in Hl.
-    destruct (in_dec Pos.eq_dec k (to_delete d s0)) as [Hd|Hd]; [discriminate|].
+    unfold s1, Operator.deploy_rendered, Operator.deploy in Hl.
+    rewrite (lookup_after_deploy_other (desired_of rs s0) s0 k Hnk) in Hl.
+    destruct (in_dec Pos.eq_dec k (to_delete (desired_of rs s0) s0)) as [Hd|Hd]; [discriminate|].
     destruct (unmanaged k) eqn:Hun; [reflexivity|]. exfalso. apply Hd.
     unfold Operator.to_delete. apply in_map_iff. exists (k, c). split; [reflexivity|].
     apply filter_In. split; [apply in_store_lookup; exact Hl|].
     cbn [fst snd]. rewrite Hcol, Hk, Hun. reflexivity.
   Qed.
 
-  Lemma eqb_refl : forall a, obj_eqb a a = true.
-  Proof. intro a. apply obj_eqb_spec. reflexivity. Qed.
-
-  (** Clause 4: the second Deploy issues no call iff every rendered object is
-      a fixpoint of the write / read-back normalisation. *)
-  Theorem operator_fixpoint :
-    fst (deploy_with d s1) = [] <-> (forall k o, In (k, o) d -> norm (own (rendered s0 k o)) = rendered s0 k o).
+  (** the stored object under a rendered key after the first Deploy: left
+      alone when the collected object equals the rendering, else the read-back
+      of the written rendering *)
+  Lemma lookup_s1 : forall k r, In (k, r) rs ->
+    lookup k s1 = match cur_lookup k s0 with
+                  | Some c => if obj_eqb c (render_at k r (lookup k s0)) then Some c
+                              else Some (norm (own (render_at k r (lookup k s0))))
+                  | None => Some (norm (own (render_at k r (lookup k s0))))
+                  end.
   Proof.
-    rewrite quiet_iff. unfold in_sync. split.
-    - intros [H1 _] k o Hin. destruct (H1 k o Hin) as (c1 & Hcur1 & Heq). apply obj_eqb_spec in Heq.
-      unfold Operator.cur_lookup in Hcur1. unfold s1 in Hcur1.
-      rewrite (lookup_after_deploy d s0 k o d_nodup Hin) in Hcur1.
-      unfold Operator.rendered. unfold Operator.written_create, Operator.written_update in Hcur1.
-      rewrite (d_managed k o Hin) in Hcur1.
+    intros k r Hin. unfold s1, Operator.deploy_rendered, Operator.deploy.
+    assert (Hd : In (k, r (lookup k s0)) (desired_of rs s0)) by (apply desired_In; exists r; auto).
+    rewrite (lookup_after_deploy (desired_of rs s0) s0 k (r (lookup k s0))); [|rewrite desired_keys; exact rs_nodup|exact Hd].
+    unfold Operator.written_create, Operator.written_update. rewrite (rs_managed k r Hin).
+    rewrite <- rendered_render_at. unfold Operator.rendered.
+    destruct (cur_lookup k s0) as [c|] eqn:Hcur; [|reflexivity].
+    destruct (obj_eqb c (inherit c (r (lookup k s0)))); [|reflexivity].
+    unfold Operator.cur_lookup in Hcur. destruct (lookup k s0) as [c'|]; [|discriminate].
+    destruct (collected k c'); [|discriminate]. inversion Hcur; subst. reflexivity.
+  Qed.
+
+  (** after one Deploy the owned objects are exactly the rendered ones: every
+      rendered key is present, every collected object is rendered or unmanaged
+      (nothing of an earlier configuration survives) *)
+  Lemma deploy_converges :
+    (forall k r, In (k, r) rs -> exists c, lookup k s1 = Some c)
+    /\ (forall k c, In (k, c) s1 -> collected k c = true -> In k (map fst rs) \/ unmanaged k = true).
+  Proof.
+    split.
+    - intros k r Hin. rewrite (lookup_s1 k r Hin).
+      destruct (cur_lookup k s0) as [c|]; [destruct (obj_eqb c _)|]; eexists; reflexivity.
+    - intros k c Hin Hcol. destruct (second_deploy_no_deletes k c Hin Hcol) as [H|H]; [left|right; exact H].
+      apply has_key_In in H. rewrite desired_keys in H. exact H.
+  Qed.
+
+  Lemma cur_lookup_inv : forall k s c, cur_lookup k s = Some c -> lookup k s = Some c /\ collected k c = true.
+  Proof.
+    intros k s c H. unfold Operator.cur_lookup in H. destruct (lookup k s) as [c'|]; [|discriminate].
+    destruct (collected k c') eqn:Hc; [|discriminate]. inversion H; subst. auto.
+  Qed.
+
+  (** Clause 4: the second Deploy issues no call iff, for every key, the
+      object was already in place, or re-rendering on top of the read-back of
+      what the first Deploy wrote reproduces that read-back. *)
+  Theorem operator_fixpoint :
+    fst (deploy_rendered rs s1) = []
+    <-> (forall k r, In (k, r) rs ->
+           cur_lookup k s0 = Some (render_at k r (lookup k s0))
+           \/ render_at k r (Some (norm (own (render_at k r (lookup k s0)))))
+              = norm (own (render_at k r (lookup k s0)))).
+  Proof.
+    unfold Operator.deploy_rendered at 1. unfold Operator.deploy. rewrite quiet_iff. unfold in_sync. split.
+    - intros [H1 _] k r Hin. set (x := render_at k r (lookup k s0)).
+      assert (Hd : In (k, r (lookup k s1)) (desired_of rs s1)) by (apply desired_In; exists r; auto).
+      destruct (H1 k _ Hd) as (c1 & Hcur1 & Heq). apply obj_eqb_spec in Heq.
+      destruct (cur_lookup_inv _ _ _ Hcur1) as [Hl1 Hcol1].
+      assert (Hr : render_at k r (Some c1) = c1).
+      { unfold Operator.render_at. rewrite Hcol1. rewrite <- Hl1. symmetry. exact Heq. }
+      pose proof (lookup_s1 k r Hin) as Hs1. fold x in Hs1. rewrite Hl1 in Hs1.
       destruct (cur_lookup k s0) as [c|] eqn:Hcur0.
-      + destruct (obj_eqb c (inherit c o)) eqn:E.
-        * apply obj_eqb_spec in E. rewrite <- E. apply (store_stable k o c Hin Hcur0).
-        * rewrite written_collected in Hcur1. inversion Hcur1; subst c1.
-          rewrite inherit_roundtrip in Heq. exact Heq.
-      + rewrite written_collected in Hcur1. inversion Hcur1; subst c1.
-        rewrite inherit_self in Heq. exact Heq.
+      + destruct (obj_eqb c x) eqn:E.
+        * apply obj_eqb_spec in E. left. rewrite E. reflexivity.
+        * inversion Hs1; subst c1. right. exact Hr.
+      + inversion Hs1; subst c1. right. exact Hr.
     - intro H. split; [|exact second_deploy_no_deletes].
-      intros k o Hin. specialize (H k o Hin). unfold Operator.rendered in H.
-      unfold Operator.cur_lookup at 1. unfold s1.
-      rewrite (lookup_after_deploy d s0 k o d_nodup Hin).
-      unfold Operator.written_create, Operator.written_update. rewrite (d_managed k o Hin).
+      intros k o Hd. apply desired_In in Hd. destruct Hd as (r & Hin & Ho). subst o.
+      specialize (H k r Hin).
+      pose proof (lookup_s1 k r Hin) as Hs1.
+      set (x := render_at k r (lookup k s0)) in *.
+      assert (Hgoal : forall c1, lookup k s1 = Some c1 -> collected k c1 = true -> render_at k r (Some c1) = c1 ->
+                exists c, cur_lookup k s1 = Some c /\ obj_eqb c (inherit c (r (lookup k s1))) = true).
+      { intros c1 Hl Hc Hr. exists c1. unfold Operator.cur_lookup. rewrite Hl, Hc. split; [reflexivity|].
+        apply obj_eqb_spec. unfold Operator.render_at in Hr. rewrite Hc in Hr. symmetry. exact Hr. }
       destruct (cur_lookup k s0) as [c|] eqn:Hcur0.
-      + destruct (obj_eqb c (inherit c o)) eqn:E.
-        * unfold Operator.cur_lookup in Hcur0. destruct (lookup k s0) as [c'|]; [|discriminate].
-          destruct (collected k c') eqn:Hcol; [|discriminate]. inversion Hcur0; subst c'.
-          exists c. auto.
-        * rewrite written_collected. eexists. split; [reflexivity|].
-          apply obj_eqb_spec. rewrite inherit_roundtrip. exact H.
-      + rewrite written_collected. eexists. split; [reflexivity|].
-        apply obj_eqb_spec. rewrite inherit_self. exact H.
+      + destruct (cur_lookup_inv _ _ _ Hcur0) as [Hl0 Hc0].
+        destruct (obj_eqb c x) eqn:E.
+        * apply obj_eqb_spec in E.
+          apply (Hgoal c Hs1 Hc0). rewrite <- Hl0. fold x. symmetry. exact E.
+        * destruct H as [H|H].
+          -- inversion H as [Hcx]. rewrite Hcx in E. rewrite (proj2 (obj_eqb_spec x x) eq_refl) in E. discriminate.
+          -- apply (Hgoal _ Hs1 (written_collected k x)). exact H.
+      + destruct H as [H|H]; [discriminate|].
+        apply (Hgoal _ Hs1 (written_collected k x)). exact H.
   Qed.
 End OperatorProofs.
+
+(** Store-independent renderers and no field inheritance: the condition reads
+    "norm (own desired) = desired" for every desired object that is not
+    already in place. *)
+Definition const_renderers {obj} (d : list (positive * obj)) : list (positive * renderer obj) :=
+  map (fun kx => (fst kx, fun _ : option obj => snd kx)) d.
+
+Corollary operator_fixpoint_pure :
+  forall (obj : Type) (obj_eqb : obj -> obj -> bool) (own norm : obj -> obj)
+         (collected : positive -> obj -> bool) (unmanaged : positive -> bool),
+    (forall a b, obj_eqb a b = true <-> a = b) ->
+    forall (d : list (positive * obj)) (s0 : store obj),
+    NoDup (map fst d) -> NoDup (map fst s0) ->
+    (forall k x, In (k, x) d -> unmanaged k = false) ->
+    (forall k x, collected k (norm (own x)) = true) ->
+    fst (deploy_rendered obj obj_eqb own norm (fun _ o => o) collected unmanaged (const_renderers d)
+           (snd (deploy_rendered obj obj_eqb own norm (fun _ o => o) collected unmanaged (const_renderers d) s0))) = []
+    <-> (forall k x, In (k, x) d -> cur_lookup obj collected k s0 = Some x \/ norm (own x) = x).
+Proof.
+  intros obj obj_eqb own norm collected unmanaged Hspec d s0 Hnd Hs0 Hman Hcol.
+  assert (Hra : forall k x b, render_at obj (fun _ o => o) collected k (fun _ : option obj => x) b = x).
+  { intros k x b. unfold render_at. destruct b as [c|]; [destruct (collected k c)|]; reflexivity. }
+  rewrite (operator_fixpoint obj obj_eqb own norm (fun _ o => o) collected unmanaged Hspec (const_renderers d) s0).
+  - split.
+    + intros H k x Hin.
+      specialize (H k (fun _ => x)). rewrite !Hra in H.
+      destruct H as [H|H]; [|left; exact H|right; symmetry; exact H].
+      unfold const_renderers. apply in_map_iff. exists (k, x). auto.
+    + intros H k r Hin. unfold const_renderers in Hin. apply in_map_iff in Hin.
+      destruct Hin as ((k', x) & E & Hin). cbn [fst snd] in E. inversion E; subst. rewrite !Hra.
+      destruct (H _ x Hin) as [H'|H']; [left; exact H'|right; symmetry; exact H'].
+  - unfold const_renderers. rewrite map_map. exact Hnd.
+  - exact Hs0.
+  - intros k r Hin. unfold const_renderers in Hin. apply in_map_iff in Hin.
+    destruct Hin as ((k', x) & E & Hin). cbn [fst snd] in E. inversion E; subst. apply (Hman _ x Hin).
+  - exact Hcol.
+Qed.
 
 (** ** A concrete instance (non-vacuity, and the shape of the usual defect)
 
@@ -467,33 +578,43 @@ End OperatorProofs.
 From Coq Require Import ZArith.
 
 Definition ex_norm (o : Z) : Z := if Z.eqb o 1 then 0%Z else o.
-Definition ex_deploy (d : list (positive * Z)) (s : store Z) : list call * store Z :=
-  deploy_with Z Z.eqb (fun o => o) ex_norm (fun _ o => o) (fun _ _ => true) (fun _ => false) d s.
+Definition ex_deploy (rs : list (positive * renderer Z)) (s : store Z) : list call * store Z :=
+  deploy_rendered Z Z.eqb (fun o => o) ex_norm (fun _ o => o) (fun _ _ => true) (fun _ => false) rs s.
 
-Lemma ex_operator_hyps : forall (d : list (positive * Z)),
+(** renderers that ignore the stored object *)
+Definition ex_good : list (positive * renderer Z) := [(1%positive, fun _ => 0%Z); (2%positive, fun _ => 7%Z)].
+Definition ex_bad : list (positive * renderer Z) := [(1%positive, fun _ => 1%Z); (2%positive, fun _ => 7%Z)].
+
+Lemma ex_operator_hyps : forall (rs : list (positive * renderer Z)),
   (forall a b, Z.eqb a b = true <-> a = b)
-  /\ (forall k o, In (k, o) d -> (fun _ : positive => false) k = false)
-  /\ (forall (k : positive) x, (fun (_ : positive) (_ : Z) => true) k (ex_norm x) = true)
-  /\ (forall k o c, In (k, o) d -> cur_lookup Z (fun _ _ => true) k [] = Some c -> ex_norm c = c)
-  /\ (forall c o : Z, (fun _ o => o) (ex_norm ((fun _ o => o) c o)) o = (fun _ o => o) c o)
-  /\ (forall o : Z, (fun _ o => o) (ex_norm o) o = o).
+  /\ (forall k (r : renderer Z), In (k, r) rs -> (fun _ : positive => false) k = false)
+  /\ (forall (k : positive) x, (fun (_ : positive) (_ : Z) => true) k (ex_norm x) = true).
 Proof.
-  intro d. repeat split; try reflexivity.
-  - apply Z.eqb_eq.
-  - apply Z.eqb_eq.
-  - intros k o c _ H. discriminate H.
+  intro rs. repeat split; try reflexivity; apply Z.eqb_eq.
+Qed.
+
+(** the right-hand side of the fixpoint theorem on the two instances *)
+Lemma ex_operator_rhs :
+  (forall k r, In (k, r) ex_good ->
+     cur_lookup Z (fun _ _ => true) k [] = Some (render_at Z (fun _ o => o) (fun _ _ => true) k r (lookup Z k []))
+     \/ render_at Z (fun _ o => o) (fun _ _ => true) k r (Some (ex_norm (render_at Z (fun _ o => o) (fun _ _ => true) k r (lookup Z k []))))
+        = ex_norm (render_at Z (fun _ o => o) (fun _ _ => true) k r (lookup Z k [])))
+  /\ ~ (forall k r, In (k, r) ex_bad ->
+     cur_lookup Z (fun _ _ => true) k [] = Some (render_at Z (fun _ o => o) (fun _ _ => true) k r (lookup Z k []))
+     \/ render_at Z (fun _ o => o) (fun _ _ => true) k r (Some (ex_norm (render_at Z (fun _ o => o) (fun _ _ => true) k r (lookup Z k []))))
+        = ex_norm (render_at Z (fun _ o => o) (fun _ _ => true) k r (lookup Z k []))).
+Proof.
+  split.
+  - intros k r [E|[E|[]]]; inversion E; subst; right; reflexivity.
+  - intro H. destruct (H 1%positive (fun _ => 1%Z) (or_introl eq_refl)) as [E|E]; vm_compute in E; discriminate.
 Qed.
 
 Lemma ex_operator_runs :
   (* a normal-form rendering: second Deploy is silent *)
-  fst (ex_deploy [(1%positive, 0%Z); (2%positive, 7%Z)] (snd (ex_deploy [(1%positive, 0%Z); (2%positive, 7%Z)] []))) = []
+  fst (ex_deploy ex_good (snd (ex_deploy ex_good []))) = []
   (* a rendering that is not a normal form: an Update on every Deploy *)
-  /\ fst (ex_deploy [(1%positive, 1%Z); (2%positive, 7%Z)] (snd (ex_deploy [(1%positive, 1%Z); (2%positive, 7%Z)] [])))
-     = [CUpdate 1%positive]
-  /\ fst (ex_deploy [(1%positive, 1%Z); (2%positive, 7%Z)]
-            (snd (ex_deploy [(1%positive, 1%Z); (2%positive, 7%Z)]
-               (snd (ex_deploy [(1%positive, 1%Z); (2%positive, 7%Z)] [])))))
-     = [CUpdate 1%positive]
-  (* an owned object that is no longer desired is deleted, a foreign one at a desired key is taken over *)
-  /\ fst (ex_deploy [(2%positive, 7%Z)] [(1%positive, 5%Z); (2%positive, 7%Z)]) = [CDelete 1%positive].
+  /\ fst (ex_deploy ex_bad (snd (ex_deploy ex_bad []))) = [CUpdate 1%positive]
+  /\ fst (ex_deploy ex_bad (snd (ex_deploy ex_bad (snd (ex_deploy ex_bad []))))) = [CUpdate 1%positive]
+  (* an owned object that is no longer desired is deleted *)
+  /\ fst (ex_deploy [(2%positive, fun _ => 7%Z)] [(1%positive, 5%Z); (2%positive, 7%Z)]) = [CDelete 1%positive].
 Proof. vm_compute. repeat split. Qed.
